@@ -48,7 +48,9 @@ CONSTANTS KPeers,      \* peers known to the cluster metadata
           UPeers,      \* peers the metadata does not know
           Vers,        \* schema versions peers can report
           LocalVers,   \* schema versions the control node can report
-          Waits,       \* max_schema_agreement_wait values, in ticks
+          Waits,       \* cluster-wide Cluster.max_schema_agreement_wait values, in ticks (positive)
+          PerCall,     \* per-call waits an application passes to Cluster.refresh_*_metadata(max_schema_agreement_wait=...),
+                       \* in ticks; 0 is the documented "do not wait, refresh at once"
           Modes,       \* subset of {"direct", "ddl_meta", "ddl_nometa"}
           MaxGap       \* largest admissible distance between two polls, in ticks
 
@@ -60,7 +62,10 @@ NoSnap == [local |-> "-"]
 LiveVersions(s) == {s.local} \cup {s.pv[p] : p \in {q \in KPeers : s.st[q] # "down"}}
 Agrees(s) == Cardinality(LiveVersions(s)) = 1
 
-VARIABLES wait, mode,   \* configuration
+VARIABLES wait,         \* the CONFIGURED wait of this call: the per-call value when one is given (0 included), else the
+                        \* cluster-wide one
+          cfg,          \* [cw: cluster-wide wait, given: a per-call value was passed, pc: that value]
+          mode,
           polled,       \* at least one poll was made
           last,         \* instant of the last poll (of its end when it got no answer)
           lastLost,     \* the last poll got no answer
@@ -71,19 +76,32 @@ VARIABLES wait, mode,   \* configuration
           endAt,        \* instant at which the outcome was reported
           future,       \* "n/a" | "unset" | "yes" | "no": ResponseFuture.is_schema_agreed
           act
-vars == <<wait, mode, polled, last, lastLost, snap, sawUniform, status, verdict, endAt, future, act>>
+vars == <<wait, cfg, mode, polled, last, lastLost, snap, sawUniform, status, verdict, endAt, future, act>>
 
 Horizon == CHOOSE m \in {w + MaxGap : w \in Waits} : \A w \in Waits : w + MaxGap <= m
 
-Init == /\ wait \in Waits
-        /\ mode \in Modes
+NoResult == {"direct", "refresh"}      \* modes in which no request future is involved
+
+\* "refresh" = the application calls Cluster.refresh_schema_metadata / refresh_*_metadata, optionally with its own
+\* wait: Cluster.refresh_schema_metadata -> ControlConnection.refresh_schema(force=True, schema_agreement_wait=pc) ->
+\* _refresh_schema -> wait_for_schema_agreement(wait_time=pc); it returns normally iff the schema was refreshed
+\* (outcome "yes" or the wait was skipped) and raises DriverException otherwise ("no").
+Init == /\ mode \in Modes
+        /\ \E cw \in Waits :
+             \/ cfg = [cw |-> cw, given |-> FALSE, pc |-> 0]
+             \/ mode = "refresh" /\ \E pc \in PerCall : cfg = [cw |-> cw, given |-> TRUE, pc |-> pc]
+        /\ wait = IF cfg.given THEN cfg.pc ELSE cfg.cw
         /\ polled = FALSE /\ last = 0 /\ lastLost = FALSE
         /\ snap = NoSnap
         /\ sawUniform = FALSE
         /\ status = "polling"
         /\ verdict = "unset" /\ endAt = 0
-        /\ future = IF mode = "direct" THEN "n/a" ELSE "unset"
+        /\ future = IF mode \in NoResult THEN "n/a" ELSE "unset"
         /\ act = [name |-> "Init"]
+
+\* a poll may start while the configured wait has not elapsed; what happens at the very instant it elapses is not
+\* fixed by the statement (and is where clock discretisation falls), so that instant is admitted for a positive wait
+BeforeDeadline(at) == at < wait \/ (wait > 0 /\ at = wait)
 
 EarliestPoll == IF ~polled THEN 0 ELSE IF lastLost THEN last ELSE last + 1
 
@@ -93,18 +111,20 @@ PollLost(at, end) ==
     /\ status = "polling"
     /\ at >= EarliestPoll
     /\ at <= last + MaxGap
+    /\ BeforeDeadline(at)
     /\ end > at
     /\ polled' = TRUE
     /\ last' = end
     /\ lastLost' = TRUE
     /\ act' = [name |-> "PollLost", at |-> at, end |-> end]
-    /\ UNCHANGED <<wait, mode, snap, sawUniform, status, verdict, endAt, future>>
+    /\ UNCHANGED <<wait, cfg, mode, snap, sawUniform, status, verdict, endAt, future>>
 
 \* one round trip of the two queries at instant `at`, seeing snapshot s
 Poll(s, at) ==
     /\ status = "polling"
     /\ at >= EarliestPoll
     /\ at <= last + MaxGap                       \* keeps polling: no gap longer than MaxGap (from the start, too)
+    /\ BeforeDeadline(at)                        \* ... until the configured wait has elapsed: no poll starts after that
     /\ polled' = TRUE
     /\ last' = at
     /\ lastLost' = FALSE
@@ -112,7 +132,7 @@ Poll(s, at) ==
     /\ sawUniform' = (sawUniform \/ Agrees(s))
     /\ status' = IF Agrees(s) THEN "agreed" ELSE "polling"
     /\ act' = [name |-> "Poll", snap |-> s, at |-> at]
-    /\ UNCHANGED <<wait, mode, verdict, endAt, future>>
+    /\ UNCHANGED <<wait, cfg, mode, verdict, endAt, future>>
 
 \* the outcome is reported: wait_for_schema_agreement returns v ("direct"), or refresh_schema_and_set_result stores
 \* what it returned in the request's future ("ddl_*")
@@ -125,9 +145,19 @@ Finish(v, at) ==
     /\ status' = "done"
     /\ verdict' = v
     /\ endAt' = at
-    /\ future' = IF mode = "direct" THEN "n/a" ELSE v             \* (c)
+    /\ future' = IF mode \in NoResult THEN "n/a" ELSE v          \* (c)
     /\ act' = [name |-> "Finish", v |-> v, at |-> at]
-    /\ UNCHANGED <<wait, mode, polled, last, lastLost, snap, sawUniform>>
+    /\ UNCHANGED <<wait, cfg, mode, polled, last, lastLost, snap, sawUniform>>
+
+\* the configured wait is 0: the wait is bypassed - no poll at all, the caller goes on at once (a refresh is made)
+Skip(at) ==
+    /\ status = "polling" /\ ~polled
+    /\ wait = 0
+    /\ status' = "done"
+    /\ verdict' = "skipped"
+    /\ endAt' = at
+    /\ act' = [name |-> "Skip", at |-> at]
+    /\ UNCHANGED <<wait, cfg, mode, polled, last, lastLost, snap, sawUniform, future>>
 
 \* an exception escapes from wait_for_schema_agreement while it is polling (the poll in flight is never answered);
 \* "direct": it reaches the caller; "ddl_*": refresh_schema_and_set_result logs it, schedules a background refresh and
@@ -135,23 +165,25 @@ Finish(v, at) ==
 Abort(fv, at) ==
     /\ status = "polling"
     /\ at >= last
-    /\ fv = (IF mode = "direct" THEN "n/a" ELSE "no")
+    /\ fv = (IF mode \in NoResult THEN "n/a" ELSE "no")
     /\ status' = "done"
     /\ verdict' = "raised"
     /\ endAt' = at
     /\ future' = fv
     /\ act' = [name |-> "Abort", v |-> fv, at |-> at]
-    /\ UNCHANGED <<wait, mode, polled, last, lastLost, snap, sawUniform>>
+    /\ UNCHANGED <<wait, cfg, mode, polled, last, lastLost, snap, sawUniform>>
 
 Next == \/ \E s \in Snaps, at \in 0..Horizon : Poll(s, at)
         \/ \E at \in 0..Horizon : \E end \in {at + 1, at + 3, Horizon} : end <= Horizon /\ PollLost(at, end)
         \/ \E v \in {"yes", "no"}, at \in 0..Horizon : Finish(v, at)
         \/ \E fv \in {"n/a", "no"}, at \in 0..Horizon : Abort(fv, at)
+        \/ \E at \in 0..Horizon : Skip(at)
 Spec == Init /\ [][Next]_vars /\ WF_vars(Next)
 
 -----------------------------------------------------------------------------
 TypeOK == /\ status \in {"polling", "agreed", "done"}
-          /\ verdict \in {"unset", "yes", "no", "raised"}
+          /\ verdict \in {"unset", "yes", "no", "raised", "skipped"}
+          /\ wait = (IF cfg.given THEN cfg.pc ELSE cfg.cw)
           /\ future \in {"n/a", "unset", "yes", "no"}
 
 \* (a) agreement is reported exactly when the live versions form a single version
@@ -163,12 +195,14 @@ NoAgreementOnlyAfterWait == verdict = "no" => /\ ~sawUniform
                                               /\ endAt >= wait
                                               /\ last + MaxGap >= wait
 KeepsPolling == polled => last <= Horizon
+\* the configured wait of a call with its own value is that value, 0 included: then nothing is polled
+ZeroWaitNeverPolls == wait = 0 => ~polled /\ verdict \in {"unset", "skipped"}
 
 \* (c) the schema-changing request's result records the outcome
-FutureRecords == /\ status = "done" /\ mode # "direct" => future = (IF verdict = "raised" THEN "no" ELSE verdict)
+FutureRecords == /\ status = "done" /\ mode \notin NoResult => future = (IF verdict = "raised" THEN "no" ELSE verdict)
                  /\ future = "yes" => verdict = "yes"                \* never claims an agreement that was not observed
                  /\ status # "done" => future \in {"n/a", "unset"}
-                 /\ mode = "direct" <=> future = "n/a"
+                 /\ mode \in NoResult <=> future = "n/a"
 
 Terminates == <>(status = "done")
 
@@ -181,7 +215,9 @@ Witness_Timeout        == ~(verdict = "no")
 Witness_DenseSchedule  == ~(verdict = "no" /\ endAt = wait)
 Witness_FutureYesNoMeta == ~(future = "yes" /\ mode = "ddl_nometa")
 Witness_NothingSeen     == ~(verdict = "no" /\ snap = NoSnap)        \* every poll of the wait was lost
-Witness_AbortAfterPolls == ~(verdict = "raised" /\ polled /\ mode # "direct")
+Witness_Bypass          == ~(verdict = "skipped" /\ cfg.given /\ cfg.cw > 0)
+Witness_PerCallShorter  == ~(verdict = "no" /\ cfg.given /\ cfg.pc > 0 /\ cfg.pc < cfg.cw /\ endAt < cfg.cw)
+Witness_AbortAfterPolls == ~(verdict = "raised" /\ polled /\ mode \notin NoResult)
 
 ASSUME TLCSet(2, {})
 WitnessesHere == (IF ~Witness_AgreeLater THEN {"Witness_AgreeLater"} ELSE {})
@@ -192,6 +228,8 @@ WitnessesHere == (IF ~Witness_AgreeLater THEN {"Witness_AgreeLater"} ELSE {})
             \cup (IF ~Witness_DenseSchedule THEN {"Witness_DenseSchedule"} ELSE {})
             \cup (IF ~Witness_FutureYesNoMeta THEN {"Witness_FutureYesNoMeta"} ELSE {})
             \cup (IF ~Witness_NothingSeen THEN {"Witness_NothingSeen"} ELSE {})
+            \cup (IF ~Witness_Bypass THEN {"Witness_Bypass"} ELSE {})
+            \cup (IF ~Witness_PerCallShorter THEN {"Witness_PerCallShorter"} ELSE {})
             \cup (IF ~Witness_AbortAfterPolls THEN {"Witness_AbortAfterPolls"} ELSE {})
 RecordWitnesses == TLCSet(2, TLCGet(2) \cup WitnessesHere)
 PrintWitnesses == PrintT(<<"WITNESSES", TLCGet(2)>>)
